@@ -9,6 +9,7 @@ import DisjointImpls.Lemmas.Refine
 import DisjointImpls.Props.C16
 import DisjointImpls.Props.C01
 import DisjointImpls.Lemmas.ExpandInherent
+import DisjointImpls.Lemmas.HelperPath
 namespace DI
 
 /-- the generated inherent impls refine the user's blocks: a member is selected for a query exactly when its
@@ -182,7 +183,8 @@ theorem C17_items_delegate (idx : Nat) (g : T × ABG × List Blk) (m : T)
   · exact (itemKeeps_vis_inh hk hs).2.2.1
   · exact (itemKeeps_vis_inh hk hs).2.2.2.2
 
-/-- the helper impls are the members with every visibility removed and the helper path as their trait (items are
+/-- the helper impls are the members with every visibility removed and the helper trait (a single unqualified segment,
+    `C08_helper_path_unqualified`) as their trait (items are
     otherwise untouched) — the other half of "exactly the visibility the user wrote": it is kept on the main impl
     (`C17_items_delegate`) and removed on the helper impls, which are trait impls -/
 theorem C17_helper_items_private (idx : Nat) (p0 : T) (idents : List (BKey × String)) (row : List (Option T))
@@ -193,7 +195,8 @@ theorem C17_helper_items_private (idx : Nat) (p0 : T) (idents : List (BKey × St
   obtain ⟨x, a, d, u, g, tr, s, items, _, rfl, rfl⟩ := helperImpl_inherent_inv_inh hl hh
   simp [XOK.kid, XOK.kids]
 
-/-- the helper trait of inherent mode is public, is named `_<Self><idx>` after the first block's self type, keeps the
+/-- the helper trait of inherent mode is public, is named `_<Self><idx>` after the first block's self type (`selfTraitIdent`:
+    the identifier of the LAST segment of the self type's path, see `C17_helper_trait_named_by_last_segment`), keeps the
     first block's safety qualifier, and has one item per item of the first block: the declaration of that item (same
     name, same type / signature / generics, no value) for every const / type / fn item of the shape `syn` produces -/
 theorem C17_helper_trait_items (item : T) (idx nkeys : Nat) (tr : T)
@@ -379,5 +382,98 @@ theorem C17_nested_member_counterexample : ExInh.checkFirst [ExInh.nestedA, ExIn
       !expandOKInh_inh g (thetasOf g) tr hs m && expandOKB g (thetasOf g) hs m) = true := by with_unfolding_all decide
 
 end InherentExamples
+
+/-! ## The helper trait is named by the LAST segment of the self type's path
+    (helper_trait.rs, /repo commit ccb06e8 "fix: helper traits are named by the last path segment only")
+
+Before the repair `helper_trait::generate` printed `trait #self_ty_without_last_arguments`, which for a qualified self type
+such as `meters::Wrapper<T>` is not an identifier (`expected identifier` panic; in the model `selfTraitIdent` demanded a
+single segment without leading `::`). Now the helper trait is declared under the last segment's identifier, whatever
+leading segments / leading `::` the self type's path has. -/
+
+/-- If `helperTraitOfInherent item idx nkeys = .ok ht` then the self type of `item` (child 5) is an unqualified path type
+    `Type::Path [None, p]` (no `<T as Tr>::` prefix), the LAST segment of `p` is `x<…>` for an identifier `x`, and the helper
+    trait's identifier (child 5 of `ht`; `traitName_inh`, `traitIdent`) is `genIdentStr x idx` = `_<x><idx>`. Nothing is
+    assumed about the other segments of `p` or about a leading `::`: they do not enter the name. No side condition. -/
+theorem C17_helper_trait_named_by_last_segment (item : T) (idx nkeys : Nat) (ht : T)
+    (h : helperTraitOfInherent item idx nkeys = .ok ht) :
+    ∃ p x a, XOK.kid item 5 = .node "Type::Path" [] [tNone, p] ∧
+      lastSegOf p = some (.node "PathSegment" [] [.node "Ident" [x] [], a]) ∧
+      XOK.kid ht 5 = tIdent (genIdentStr x idx) ∧ traitName_inh ht = genIdentStr x idx ∧
+      traitIdent ht = genIdentStr x idx :=
+  helperTraitOfInherent_name_hp h
+
+/-- … and conversely a qualified self type no longer makes the generator panic: for an `impl` block whose self type is ANY
+    unqualified path type with a named last segment (any leading segments, any leading `::`) and whose items can be turned
+    into declarations, the helper trait is generated and named after the last segment. -/
+theorem C17_helper_trait_any_qualifier (a d u lt : T) (ps : List T) (gt wc trr p : T) (items its : List T) (x : String) (a0 : T)
+    (idx nkeys : Nat)
+    (hl : lastSegOf p = some (.node "PathSegment" [] [.node "Ident" [x] [], a0]))
+    (hits : genAll (items.map traitItemOfImplItem) = .ok its) :
+    ∃ ht, helperTraitOfInherent (.node "ItemImpl" [] [a, d, u, .node "Generics" [] [lt, .node "List" [] ps, gt, wc], trr,
+        .node "Type::Path" [] [tNone, p], .node "List" [] items]) idx nkeys = .ok ht ∧
+      traitName_inh ht = genIdentStr x idx := by
+  have hx := selfTraitIdent_of_last_inh hl
+  simp only [tNone] at hx
+  unfold helperTraitOfInherent
+  simp only [tNone, hx, hits]
+  exact ⟨_, rfl, by simp [traitName_inh, XOK.kid, XOK.kids, XOK.atoms, tIdent]⟩
+
+namespace ExInh
+open Ex11
+/-- `[::]m₁::…::name<args>` as a self type (`lead` = `noLead` / `someLead`) -/
+def qualAdt (lead : T) (mods : List String) (name : String) (args : List T) : T :=
+  .node "Type::Path" [] [leaf "None", .node "Path" [] [lead, .node "List" [] (mods.map Ex11.seg ++
+    [.node "PathSegment" [] [.node "Ident" [name] [],
+      .node "PathArguments::AngleBracketed" [] [.node "Ign" [] [leaf "None"],
+        .node "List" [] (args.map (fun a => .node "GenericArgument::Type" [] [a]))]]])]]
+/-- `impl<T: Dispatch<Group = g>> meters::Wrapper<T> { pub fn kita(&self) {} fn hid(&self) {} }` -/
+def blockMW (g : String) : T :=
+  implInh [tyParam "T" [traitBound (dispatch g)]] (leaf "None") (qualAdt noLead ["meters"] "Wrapper" [tT])
+    [fnItem pubVis "kita", fnItem privVis "hid"]
+/-- `impl<T: Dispatch<Group = g>> ::krate::meters::Wrapper<T> { pub fn kita(&self) {} }` -/
+def blockAW (g : String) : T :=
+  implInh [tyParam "T" [traitBound (dispatch g)]] (leaf "None") (qualAdt someLead ["krate", "meters"] "Wrapper" [tT])
+    [fnItem pubVis "kita"]
+/-- the trait reference of `h` is the single segment `name<…>` -/
+def refIsSingle (name : String) (h : T) : Bool :=
+  match XOK.traitPathOf h with
+  | some hp => XOK.segIdent (XOK.lastSeg hp) == name && (pathSegments hp).length == 1 && pathLead hp == noLead
+  | none => false
+end ExInh
+
+section QualifiedSelfExamples
+set_option maxRecDepth 1000000
+
+/-- non-vacuity, the input of the repaired panic: two blocks on `meters::Wrapper<T>` (a self type with TWO segments). The three
+    generators succeed; the helper trait is named `_Wrapper0`; both helper impls are `impl<…> _Wrapper0<…> for meters::Wrapper<T>`
+    (single-segment reference, `pathUnqualified_hp`); the main impl keeps the user's self type; all side conditions of
+    `C17_expandOK_of_expand_inherent` hold and both checkers accept -/
+example : ExInh.checkFirst [ExInh.blockMW "GroupA", ExInh.blockMW "GroupB"]
+    (fun g tr hs m => g.2.2.length == 2 && hs.length == 2 && ExInh.sideConditions g &&
+      expandOKB g (thetasOf g) hs m && expandOKInh_inh g (thetasOf g) tr hs m &&
+      traitName_inh tr == "_Wrapper0" && XOK.kid tr 5 == tIdent "_Wrapper0" &&
+      hs.all pathUnqualified_hp && hs.all (ExInh.refIsSingle "_Wrapper0") &&
+      (implSelfTy (firstItem_inh g)).map (fun s => match s with
+        | .node "Type::Path" [] [_, p] => (pathSegments p).length
+        | _ => 0) == some 2 &&
+      XOK.kid m 5 == XOK.kid (firstItem_inh g) 5) = true := by with_unfolding_all decide
+
+/-- the same with a leading `::` and two leading segments: `::krate::meters::Wrapper<T>` -/
+example : ExInh.checkFirst [ExInh.blockAW "GroupA", ExInh.blockAW "GroupB"]
+    (fun g tr hs m => g.2.2.length == 2 && hs.length == 2 && ExInh.sideConditions g &&
+      expandOKB g (thetasOf g) hs m && expandOKInh_inh g (thetasOf g) tr hs m &&
+      traitName_inh tr == "_Wrapper0" && hs.all pathUnqualified_hp && hs.all (ExInh.refIsSingle "_Wrapper0") &&
+      XOK.kid m 5 == XOK.kid (firstItem_inh g) 5) = true := by with_unfolding_all decide
+
+/-- the hypotheses of `C17_helper_trait_any_qualifier` on the first block of that family -/
+example : lastSegOf (.node "Path" [] [someLead, .node "List" [] [Ex11.seg "krate", Ex11.seg "meters",
+      .node "PathSegment" [] [.node "Ident" ["Wrapper"] [], noArgs]]]) =
+    some (.node "PathSegment" [] [.node "Ident" ["Wrapper"] [], noArgs]) ∧
+    genAll ([ExInh.fnItem ExInh.pubVis "kita"].map traitItemOfImplItem) =
+      .ok [.node "TraitItem::Fn" [] [ignAttrs, XOK.kid (ExInh.fnItem ExInh.pubVis "kita") 3, tNone, .node "Some" ["Semi"] []]] :=
+  ⟨rfl, rfl⟩
+
+end QualifiedSelfExamples
 
 end DI
